@@ -258,7 +258,7 @@ def ob_tip(cx):
 
 def obligations(tier):
     q = tier == "quick"
-    p = dict(maxtrunk=3 if q else 6, maxextra=2 if q else 3)
+    p = dict(maxtrunk=3 if q else 12, maxextra=2 if q else 5)
     return [Ob("tip_movement", ob_tip, [BR, BB], p, 900 if q else 7200, 2 if q else 1,
                ["moved", "unchanged", "diverged", "append_only", "moved_back"],
                bounds="trunk 0..%(maxtrunk)d revisions, 0..%(maxextra)d more on each branch, optional merge of the target tip into "
